@@ -83,6 +83,8 @@ func (o c13Op) req() string {
 		return fmt.Sprintf("%s %d %d", o.Kind, o.A, o.B)
 	case "shp", "swp":
 		return fmt.Sprintf("%s %d %s", o.Kind, o.A, hexs(o.Ptr))
+	case "mla":
+		return "inert"
 	case "nm": // IndividualNode.AddName is AddNode of a NAME node
 		return fmt.Sprintf("an 1 %d %s %s -", o.A, hexs("NAME"), hexs(o.Val))
 	case "aed":
@@ -126,6 +128,8 @@ func (o c13Op) String() string {
 		return fmt.Sprintf("root#%d.SetWifePointer(%q)", o.A, o.Ptr)
 	case "ac":
 		return fmt.Sprintf("root#%d.AddChild(root#%d)", o.A, o.B)
+	case "mla":
+		return fmt.Sprintf("doc.MaxLivingAge = %d", o.A)
 	case "nm":
 		return fmt.Sprintf("root#%d.AddName(%q)", o.A, o.Val)
 	case "aed":
@@ -181,6 +185,8 @@ func (o c13Op) apiName() string {
 		return "FamilyNode.SetWifePointer"
 	case "ac":
 		return "FamilyNode.AddChild"
+	case "mla":
+		return "Document.MaxLivingAge="
 	case "nm":
 		return "IndividualNode.AddName"
 	case "aed":
@@ -226,8 +232,9 @@ func c13Plain(tag string) bool {
 // the document under test
 
 type c13Doc struct {
-	doc   *gedcom.Document
-	other *gedcom.Document // target of DeepCopy / Filter
+	doc    *gedcom.Document
+	other  *gedcom.Document // target of DeepCopy / Filter
+	second *gedcom.Document // a second live document edited in the same process
 }
 
 func (d *c13Doc) root(i int) gedcom.Node {
@@ -284,7 +291,7 @@ func c13Paths(doc *gedcom.Document) map[gedcom.Node]string {
 	m := map[gedcom.Node]string{}
 	var walk func(n gedcom.Node, p string, depth int)
 	walk = func(n gedcom.Node, p string, depth int) {
-		if depth > 64 {
+		if depth > 599 {
 			return
 		}
 		if _, ok := m[n]; !ok {
@@ -367,7 +374,7 @@ func c13Digest(doc *gedcom.Document) string {
 	}
 	var walk func(n gedcom.Node, d int)
 	walk = func(n gedcom.Node, d int) {
-		if d > 63 {
+		if d > 599 {
 			return
 		}
 		add(strconv.Itoa(d))
@@ -733,12 +740,34 @@ func (d *c13Doc) blackBox(sub string) {
 				}
 			}
 		}
+	case "OtherDocEdit": // a second live document in the same process: its edits reset the global node cache
+		if d.second == nil {
+			d.second, _ = gedcom.NewDocumentFromString(c13SmallDoc)
+		}
+		if d.second != nil {
+			if is := d.second.Individuals(); len(is) > 0 {
+				_ = is[0].Names()
+				_ = is[0].Names()
+				is[0].AddName("Second /Doc/")
+				_ = is[0].Families()
+				if ks := is[0].Nodes(); len(ks) > 2 {
+					is[0].DeleteNode(ks[len(ks)-1])
+				}
+				_ = d.second.String()
+			}
+		}
+	case "DecodeError": // a decode that fails half way (error return) after it already added nodes
+		_, _ = gedcom.NewDocumentFromString("0 @X1@ INDI\n1 NAME a /b/\n2 GIVN a\nthis is not a line\n")
+		func() { // … and one that panics (the decoder's documented "indent is too large"), recovered
+			defer func() { recover() }()
+			_, _ = gedcom.NewDocumentFromString("0 @X1@ INDI\n1 NAME a /b/\n3 NAME too deep\n")
+		}()
 	case "Decode": // decoding any other document resets the process-global node cache
 		_, _ = gedcom.NewDocumentFromString("0 @X1@ INDI\n1 NAME a /b/\n")
 	}
 }
 
-var c13ForeignSubs = []string{"Compare", "SurroundingSimilarity", "CompareNodes", "DeepCopy", "Filter"}
+var c13ForeignSubs = []string{"Compare", "SurroundingSimilarity", "CompareNodes", "DeepCopy", "Filter", "OtherDocEdit", "DecodeError"}
 var c13InertSubs = []string{"Query"}
 
 // apply executes one op on the real document and returns the observation in the model's format.
@@ -786,9 +815,21 @@ func (d *c13Doc) apply(o c13Op) (obs string) {
 			return "bad"
 		}
 		return c13View(doc, "nwt", n, o.Tag)
+	case "mla": // a field of the document changes; no view the model knows depends on it
+		doc.MaxLivingAge = float64(o.A)
+		c13MaxLivingAge = doc.MaxLivingAge
 	case "an":
 		n := d.resolve(o.Path)
-		if n == nil || !c13Plain(o.Tag) {
+		if n == nil {
+			return "bad"
+		}
+		if !c13Plain(o.Tag) {
+			// NewNode panics for INDI/FAM/HUSB/WIFE/CHIL (no document / family): a failed operation that
+			// must leave no trace.  The model answers `bad`.
+			func() {
+				defer func() { recover() }()
+				n.AddNode(gedcom.NewNode(gedcom.TagFromString(o.Tag), o.Val, o.Ptr))
+			}()
 			return "bad"
 		}
 		n.AddNode(gedcom.NewNode(gedcom.TagFromString(o.Tag), o.Val, o.Ptr))
@@ -815,6 +856,17 @@ func (d *c13Doc) apply(o c13Op) (obs string) {
 				return "bad"
 			}
 			nk = append(nk, ks[i])
+		}
+		// an identity prefix is handed over as the node's OWN slice (re-sliced), not as a copy: the
+		// result of Nodes() fed back as the argument
+		alias := len(o.Idx) > 0
+		for j, i := range o.Idx {
+			if i != j {
+				alias = false
+			}
+		}
+		if alias {
+			nk = ks[:len(o.Idx)]
 		}
 		n.SetNodes(nk)
 	case "da":
@@ -950,8 +1002,20 @@ func c13Fresh(text string) (string, string, error) {
 	if err != nil {
 		return "", "", err
 	}
+	fresh.MaxLivingAge = c13MaxLivingAge // a field of the document, not part of the text
+	c13FreshFull, c13FreshFullLabels = nil, nil
+	if c13WantFull {
+		c13FreshFull, c13FreshFullLabels = c13FullDump(fresh)
+	}
 	return c13Dump(fresh), c13UIDs(fresh), nil
 }
+
+// c13MaxLivingAge mirrors Document.MaxLivingAge of the live document (set by the "mla" op).
+var c13MaxLivingAge = gedcom.DefaultMaxLivingAge
+
+// the every-view-of-every-record dump of the last fresh decode (Go-only oracle; c13WantFull turns it on)
+var c13WantFull bool
+var c13FreshFull, c13FreshFullLabels []string
 
 // c13UIDs: IndividualNode.UniqueIdentifiers() of every individual record (a cached view derived from
 // the individual's _UID / FamilySearch id children; compared by the oracle, not part of the model).
@@ -965,7 +1029,27 @@ func c13UIDs(doc *gedcom.Document) (s string) {
 	for i, n := range doc.Individuals() {
 		ids := n.UniqueIdentifiers().Strings()
 		sort.Strings(ids)
-		parts = append(parts, fmt.Sprintf("%d:%s", i, strings.Join(ids, "+")))
+		// views that depend on a field of the document (MaxLivingAge) and on parsed dates (DateNode
+		// remembers its parse): IsLiving, first birth/death date
+		b, _ := n.Birth()
+		dth, _ := n.Death()
+		parts = append(parts, fmt.Sprintf("%d:%s;living=%v;b=%s;d=%s", i, strings.Join(ids, "+"), n.IsLiving(), b.String(), dth.String()))
+	}
+	// every DATE node's remembered parse, by position
+	var walk func(n gedcom.Node, pos string, depth int)
+	walk = func(n gedcom.Node, pos string, depth int) {
+		if depth > 64 {
+			return
+		}
+		if dn, ok := n.(*gedcom.DateNode); ok {
+			parts = append(parts, pos+"="+dn.String())
+		}
+		for i, k := range n.Nodes() {
+			walk(k, pos+"."+strconv.Itoa(i), depth+1)
+		}
+	}
+	for i, r := range doc.Nodes() {
+		walk(r, strconv.Itoa(i), 0)
 	}
 	return strings.Join(parts, " ")
 }
@@ -992,6 +1076,7 @@ func c13NewRunner(c *Ctx, text string) (*c13Runner, error) {
 	if err != nil {
 		return nil, err
 	}
+	c13MaxLivingAge = gedcom.DefaultMaxLivingAge
 	r := &c13Runner{c: c, d: &c13Doc{doc: doc, other: gedcom.NewDocument()}, text0: text, checkS: true}
 	r.req.WriteString("c13 " + encForest(abstractNodes(doc.Nodes())) + " ops")
 	// two dumps: the first call of NodesWithTag on a node only registers it
@@ -1117,7 +1202,13 @@ func (r *c13Runner) do(o c13Op) {
 		if err == nil {
 			if live := c13UIDs(r.d.doc); live != freshUIDs {
 				r.fail("", "a view differs from a fresh decode of the current text after "+o.apiName(),
-					"UniqueIdentifiers() of the individuals = "+live, "fresh decode: "+freshUIDs)
+					"UniqueIdentifiers()/IsLiving()/dates = "+live, "fresh decode: "+freshUIDs)
+			}
+			if c13WantFull && c13FreshFull != nil {
+				liveFull, labels := c13FullDump(r.d.doc)
+				if df := c13DumpDiff(liveFull, c13FreshFull, labels); df != "" {
+					r.fail("", "a view (every view of every record) differs from a fresh decode of the current text after "+o.apiName(), df, "equal")
+				}
 			}
 		}
 		if err != nil {
@@ -1153,6 +1244,10 @@ func (r *c13Runner) finish() {
 // generators
 
 var c13Names = []string{"John /Smith/", "Jane /Doe/", "Ann /Smith/", "Bob /Jones/", "Al /Doe/"}
+
+// values that are a single delimiter, all non-ASCII, invalid UTF-8 before a special character, all zeros
+var c13Awkward = []string{"/", "@", ",", "//", "/ /", "Ünï /Cödé/", "王小明 /王/", "\xff/\xfe/", "\xc3/Sm\xe9/", "0", "000", "@I1@", "a@b", "x,y", "é"}
+
 var c13Years = []string{"1850", "3 Sep 1880", "Abt. 1900", "1 Jan 1920", "Bef. 1950"}
 
 // c13Graph builds the text of a random family graph: nI individuals, nF families.
@@ -1180,6 +1275,9 @@ func c13Graph(r *Rand, nI, nF int) string {
 			b.WriteString("1 BIRT\n")
 			for k := r.Intn(3); k > 0; k-- {
 				fmt.Fprintf(&b, "2 DATE %s\n", r.Pick(c13Years))
+			}
+			if r.Chance(1, 3) { // depth 4 below the record
+				b.WriteString("2 PLAC Sydney, Australia\n3 MAP\n4 LATI S33.8\n4 LONG E151.2\n3 NOTE n\n")
 			}
 		}
 		if repeat {
@@ -1258,7 +1356,7 @@ func (d *c13Doc) randomOp(r *Rand, fresh *int) c13Op {
 		return fmt.Sprintf("%s%d", prefix, 100+*fresh)
 	}
 	for {
-		switch r.Intn(24) {
+		switch r.Intn(28) {
 		case 0, 1:
 			tag := r.Pick([]string{"NAME", "NAME", "BIRT", "DEAT", "NOTE", "FAMS", "FAMC", "MARR", "SEX", "_UID"})
 			val := ""
@@ -1388,6 +1486,27 @@ func (d *c13Doc) randomOp(r *Rand, fresh *int) c13Op {
 				continue
 			}
 			return c13Op{Kind: "ssx", A: pick(inds), Val: r.Pick([]string{"M", "F", "U"})}
+		case 24: // a field of the document
+			return c13Op{Kind: "mla", A: []int{0, 1, 50, 100, 150}[r.Intn(5)]}
+		case 25: // an operation that fails (NewNode panics) and must leave no trace
+			return c13Op{Kind: "an", Path: randPath(), Tag: r.Pick([]string{"HUSB", "CHIL", "INDI", "FAM"}), Val: "@I1@"}
+		case 26: // awkward bytes in values
+			p := randPath()
+			if len(inds) > 0 && r.Bool() {
+				return c13Op{Kind: "nm", A: pick(inds), Val: r.Pick(c13Awkward)}
+			}
+			return c13Op{Kind: "an", Path: p, Tag: r.Pick([]string{"NAME", "NOTE", "PLAC", "_UID"}), Val: r.Pick(c13Awkward)}
+		case 27: // SetNodes with the node's own slice, re-sliced (identity prefix)
+			p := randPath()
+			if n := d.resolve(p); n != nil && len(n.Nodes()) > 0 {
+				k := 1 + r.Intn(len(n.Nodes()))
+				idx := make([]int, k)
+				for i := range idx {
+					idx[i] = i
+				}
+				return c13Op{Kind: "sn", Path: p, Idx: idx}
+			}
+			continue
 		}
 	}
 }
@@ -1437,6 +1556,76 @@ var c13ThoroughExtra = []c13Op{
 	{Kind: "dd", A: 1},                 // doc.DeleteNode(I1)
 }
 
+// c13Boundary builds a document with `n` on one size dimension and a history that observes, edits at
+// the boundary (append one more, delete the first / the last, keep a prefix of n-1) and observes.
+func c13Boundary(shape string, n int) (string, []c13Op) {
+	var b strings.Builder
+	idx := func(k int) []int {
+		out := make([]int, k)
+		for i := range out {
+			out[i] = i
+		}
+		return out
+	}
+	switch shape {
+	case "names": // one individual with n NAME children (+ one BIRT in the middle)
+		b.WriteString("0 @I1@ INDI\n")
+		for i := 0; i < n; i++ {
+			fmt.Fprintf(&b, "1 NAME N%d /S/\n", i)
+			if i == n/2 {
+				b.WriteString("1 BIRT\n2 DATE 1850\n")
+			}
+		}
+		return b.String(), []c13Op{{Kind: "nm", A: 0, Val: "One /More/"}, {Kind: "dn", Path: []int{0}, A: 0},
+			{Kind: "dn", Path: []int{0}, A: n}, {Kind: "sn", Path: []int{0}, Idx: idx(n - 1)}, {Kind: "nm", A: 0, Val: "After /Prefix/"},
+			{Kind: "foreign", Sub: "Filter"}}
+	case "records": // n individuals, one family
+		for i := 1; i <= n; i++ {
+			fmt.Fprintf(&b, "0 @I%d@ INDI\n1 NAME N%d /S/\n", i, i)
+		}
+		b.WriteString("0 @F1@ FAM\n1 HUSB @I1@\n1 WIFE @I2@\n")
+		return b.String(), []c13Op{{Kind: "ai", Ptr: "I9999"}, {Kind: "dd", A: 0}, {Kind: "dd", A: n - 1},
+			{Kind: "ds", Idx: idx(n - 1)}, {Kind: "ai", Ptr: "I9998"}, {Kind: "inert", Sub: "Query"}}
+	case "children": // one family with n CHIL
+		for i := 1; i <= n; i++ {
+			fmt.Fprintf(&b, "0 @I%d@ INDI\n", i)
+		}
+		b.WriteString("0 @F1@ FAM\n1 HUSB @I1@\n")
+		for i := 1; i <= n; i++ {
+			fmt.Fprintf(&b, "1 CHIL @I%d@\n", i)
+		}
+		return b.String(), []c13Op{{Kind: "ac", A: n, B: 0}, {Kind: "dn", Path: []int{n}, A: 1}, {Kind: "dn", Path: []int{n}, A: n},
+			{Kind: "sn", Path: []int{n}, Idx: idx(n - 1)}, {Kind: "ac", A: n, B: 1}}
+	case "marriages": // one person in n families (n spouses)
+		b.WriteString("0 @P@ INDI\n1 NAME P /S/\n")
+		for i := 1; i <= n; i++ {
+			fmt.Fprintf(&b, "0 @I%d@ INDI\n", i)
+		}
+		for i := 1; i <= n; i++ {
+			fmt.Fprintf(&b, "0 @F%d@ FAM\n1 HUSB @P@\n1 WIFE @I%d@\n", i, i)
+		}
+		return b.String(), []c13Op{{Kind: "afhw", Ptr: "F9999", A: 0, B: 1}, {Kind: "dd", A: n + 1}, {Kind: "dd", A: 2 * n},
+			{Kind: "sw", A: n + 1, B: -1}}
+	case "depth": // a chain n levels deep below one record
+		b.WriteString("0 @I1@ INDI\n")
+		for lvl := 1; lvl <= n && lvl <= 98; lvl++ {
+			fmt.Fprintf(&b, "%d NOTE level %d\n", lvl, lvl)
+		}
+		path := []int{0}
+		for lvl := 1; lvl < n && lvl < 98; lvl++ {
+			path = append(path, 0)
+		}
+		return b.String(), []c13Op{{Kind: "an", Path: path, Tag: "NOTE", Val: "deeper"}, {Kind: "an", Path: path, Tag: "NOTE", Val: "sibling"},
+			{Kind: "dn", Path: path, A: 0}, {Kind: "sn", Path: path[:len(path)-1]}, {Kind: "str", Sub: "String"}}
+	default: // "samepointer": n records share one pointer, the last one wins; deleting it gives the previous one back
+		for i := 0; i < n; i++ {
+			fmt.Fprintf(&b, "0 @X@ NOTE record %d\n", i)
+		}
+		return b.String(), []c13Op{{Kind: "da", Tag: "NOTE", Val: "one more", Ptr: "X"}, {Kind: "dd", A: n}, {Kind: "dd", A: n - 1},
+			{Kind: "dd", A: 0}, {Kind: "ds", Idx: idx(n - 3)}}
+	}
+}
+
 // c13Directed: the witnesses of the defects this check has found, always run first
 // (on c13SmallDoc: roots 0 HEAD, 1 I1, 2 I2, 3 F1 = [HUSB @I1@, CHIL @I2@]).
 var c13Directed = [][]c13Op{
@@ -1468,6 +1657,16 @@ var c13Directed = [][]c13Op{
 	{{Kind: "nm", A: 1, Val: "X /Y/"}, {Kind: "aed", A: 1, Tag: "BIRT", Val: "1851"}, {Kind: "aed", A: 2, Tag: "BIRT", Val: "1900"}},
 	{{Kind: "dn", Path: []int{1}, A: 1}, {Kind: "aed", A: 1, Tag: "BIRT", Val: "1851"}, {Kind: "aed", A: 1, Tag: "DEAT", Val: "1900"}},
 	{{Kind: "ssx", A: 1, Val: "M"}, {Kind: "ssx", A: 1, Val: "F"}, {Kind: "sn", Path: []int{1}}, {Kind: "ssx", A: 1, Val: "U"}},
+	// a field of the document changes between two observations; an operation that fails (NewNode panics);
+	// a second live document edited in the same process; a decode that fails half way
+	{{Kind: "mla", A: 0}, {Kind: "aed", A: 1, Tag: "DEAT", Val: "1900"}, {Kind: "mla", A: 150}},
+	{{Kind: "an", Path: []int{3}, Tag: "HUSB", Val: "@I2@"}, {Kind: "an", Path: []int{1}, Tag: "INDI"}, {Kind: "dn", Path: []int{3}, A: 0}},
+	{{Kind: "foreign", Sub: "OtherDocEdit"}, {Kind: "dn", Path: []int{1}, A: 0}, {Kind: "foreign", Sub: "OtherDocEdit"}, {Kind: "foreign", Sub: "DecodeError"}, {Kind: "nm", A: 1, Val: "/"}},
+	// awkward bytes: a value that is one delimiter, non-ASCII, invalid UTF-8 before '/', zeros
+	{{Kind: "nm", A: 1, Val: "/"}, {Kind: "nm", A: 1, Val: "\xff/\xfe/"}, {Kind: "an", Path: []int{1}, Tag: "NOTE", Val: "@"}, {Kind: "an", Path: []int{1, 1}, Tag: "PLAC", Val: "王, 000"}, {Kind: "dn", Path: []int{1}, A: 0}},
+	// edits two and three levels below the record that holds the memo, between observations
+	{{Kind: "an", Path: []int{1, 1}, Tag: "PLAC", Val: "Sydney"}, {Kind: "an", Path: []int{1, 1, 1}, Tag: "MAP"}, {Kind: "an", Path: []int{1, 1, 1, 0}, Tag: "LATI", Val: "S1"},
+		{Kind: "dn", Path: []int{1, 1, 1, 0}, A: 0}, {Kind: "sn", Path: []int{1, 1}, Idx: []int{1}}, {Kind: "dn", Path: []int{1, 1}, A: 0}},
 	// duplicate pointers: the later record wins, deleting it gives the earlier one back
 	{{Kind: "ai", Ptr: "I1"}, {Kind: "dd", A: 4}},
 	{{Kind: "af", Ptr: "F1"}, {Kind: "dd", A: 4}},
@@ -1901,6 +2100,30 @@ func init() {
 			sort.Strings(un)
 			for _, k := range un {
 				c.Untied = append(c.Untied, "go/ast fact unavailable, tie by correspondence only: "+k)
+			}
+		}
+
+		c13WantFull = true // Go-only: every view of every record against the fresh decode after every step
+
+		// 00. size boundaries: 8, 16, 32, 64, 65, 100, 128, 256 on every size dimension — children of one
+		// node (NAME repeats), records, CHIL of one family, families of one person, nesting depth,
+		// records sharing one pointer — each with observe / edit at the boundary / observe
+		for _, n := range []int{7, 8, 9, 16, 17, 32, 33, 64, 65, 100, 128, 129, 256, 257} {
+			for _, shape := range []string{"names", "records", "children", "marriages", "depth", "samepointer"} {
+				if (shape == "records" || shape == "marriages") && n > 129 && c.Quick() {
+					continue // 256 records x every view x 5 dumps: thorough only
+				}
+				text, hist := c13Boundary(shape, n)
+				r, err := c13NewRunner(c, text)
+				if err != nil {
+					c.Count("generator-decode-error")
+					continue
+				}
+				for _, o := range hist {
+					r.do(o)
+				}
+				r.finish()
+				c.Count("boundary=" + shape)
 			}
 		}
 
